@@ -1,5 +1,6 @@
 import EqsigVerif.Model.Multiple
 import EqsigVerif.Lemmas.Multiple
+import EqsigVerif.Lemmas.Rotation
 /-!
 # C18 — two-component rotation and cluster alignment
 
@@ -11,6 +12,103 @@ set_option linter.unnecessarySeqFocus false
 namespace EqsigVerif.Props.C18
 open EqsigVerif EqsigVerif.Model.Multiple EqsigVerif.Model.Single
 open EqsigVerif.Wire (ErrKind)
+
+/-! ## C18.a — `combine_at_angle` -/
+
+/-- **C18.a** (`combine_spec`, over `ℝ`). For two equally long components, `combine_at_angle(ns, we, θ)` returns normally
+and its `i`-th sample is `ns[i]·cos(θ°) + we[i]·sin(θ°)`; `θ = 0` gives `ns`, `θ = 90` gives `we`, `θ + 180` negates;
+the combination depends on `θ` only modulo 360. -/
+theorem combine_spec (ns we : List ℝ) (θ : ℝ) (hlen : ns.length = we.length) :
+    combineAtAngle (cosDeg θ) (sinDeg θ) ns we = .ok (comboAt θ ns we) ∧
+    (comboAt θ ns we).length = ns.length ∧
+    (∀ i (h1 : i < ns.length) (h2 : i < we.length),
+      (comboAt θ ns we)[i]'(by simp [comboAt]; omega) = ns[i] * cosDeg θ + we[i] * sinDeg θ) ∧
+    comboAt 0 ns we = ns ∧ comboAt 90 ns we = we ∧
+    comboAt (θ + 180) ns we = (comboAt θ ns we).map (- ·) ∧
+    (∀ k : ℤ, comboAt (θ - 360 * k) ns we = comboAt θ ns we) := by
+  refine ⟨by simp [combineAtAngle, hlen, comboAt], by simp [comboAt, hlen],
+    fun i h1 h2 => combo_getElem _ _ ns we i h1 h2, ?_, ?_, ?_, ?_⟩
+  · apply List.ext_getElem (by simp [comboAt, hlen])
+    intro i h1 h2
+    simp only [comboAt]
+    rw [combo_getElem _ _ ns we i h2 (by omega), cosDeg_zero, sinDeg_zero]; ring
+  · apply List.ext_getElem (by simp [comboAt, hlen])
+    intro i h1 h2
+    simp only [comboAt]
+    rw [combo_getElem _ _ ns we i (by omega) h2, cosDeg_90, sinDeg_90]; ring
+  · apply List.ext_getElem (by simp [comboAt, hlen])
+    intro i h1 h2
+    have hi : i < ns.length := by simpa [comboAt, hlen] using h1
+    simp only [comboAt, List.getElem_map]
+    rw [combo_getElem _ _ ns we i hi (by omega),
+      combo_getElem _ _ ns we i hi (by omega), cosDeg_add_180, sinDeg_add_180]; ring
+  · intro k
+    simp only [comboAt, cosDeg_sub_360, sinDeg_sub_360]
+
+/-- non-vacuity: two 2-sample components at 90° and at 180° -/
+example : comboAt 90 [1, 2] [3, 4] = [3, 4] ∧ comboAt (0 + 180) [1, 2] [3, 4] = [-1, -2] := by
+  have h := combine_spec [1, 2] [3, 4] 0 rfl
+  obtain ⟨_, _, _, h0, h90, h180, _⟩ := h
+  refine ⟨h90, ?_⟩
+  rw [h180, h0]; norm_num
+
+/-- `combine_at_angle` on components of different lengths (neither of length 1, which NumPy would broadcast) raises. -/
+example : combineAtAngle (1 : ℚ) 0 [1, 2, 3] [1, 2] = .error .ValueError := by decide +kernel
+
+/-! ## C18.b — `compute_rotated` -/
+
+/-- **C18.b** (`rotated_spec`). For two components with the same `dt` and number of points and a given measure (`parameter`
+or `func`), `compute_rotated` returns `points` angles and `points` values; the `i`-th value is the measure of the
+combination at `degrees[i]` (`combo` with the cosine/sine of that angle); for `points ≥ 2`,
+`degrees[i] ∈ [0, 360)` and `degrees[i] = −off + 180·i/(points−1) − 360·k` for an integer `k`
+(i.e. `≡ −off + 180·i/(points−1) (mod 360)`). -/
+theorem rotated_spec {α β : Type} [Add α] [Mul α] (cosd sind : ℚ → α) (f : List α → β)
+    (dt : ℚ) (ns we : List α) (off : ℚ) (points : ℕ) (hlen : ns.length = we.length) :
+    ∃ degs vals, computeRotated cosd sind (some f) dt dt ns we off points = .ok (degs, vals) ∧
+      ∃ (hd : degs.length = points) (hv : vals.length = points),
+      (∀ i (hi : i < points),
+        vals[i]'(by omega) = f (combo (cosd (degs[i]'(by omega))) (sind (degs[i]'(by omega))) ns we)) ∧
+      (2 ≤ points → ∀ i (hi : i < points),
+        0 ≤ degs[i]'(by omega) ∧ degs[i]'(by omega) < 360 ∧
+        ∃ k : ℤ, degs[i]'(by omega) = -off + 180 * (i : ℚ) / ((points : ℚ) - 1) - 360 * (k : ℚ)) := by
+  refine ⟨rotatedDegrees off points, (rotatedDegrees off points).map
+    (fun d => f (combo (cosd d) (sind d) ns we)), by simp [computeRotated, hlen],
+    by simp [rotatedDegrees], by simp [rotatedDegrees], ?_, ?_⟩
+  · intro i hi
+    simp
+  · intro hp i hi
+    have hg : (rotatedDegrees off points)[i]'(by simp [rotatedDegrees]; omega)
+        = npMod ((0 - off) + (i : ℚ) * ((180 - off - (0 - off)) / ((points : ℚ) - 1))) 360 := by
+      simp only [rotatedDegrees, List.getElem_map]
+      rw [linspace_getElem _ _ points i hp hi]
+    obtain ⟨h1, h2, h3⟩ := npMod_spec ((0 - off) + (i : ℚ) * ((180 - off - (0 - off)) / ((points : ℚ) - 1)))
+      360 (by norm_num)
+    rw [hg]
+    refine ⟨h1, h2, ⌊((0 - off) + (i : ℚ) * ((180 - off - (0 - off)) / ((points : ℚ) - 1))) / 360⌋, ?_⟩
+    rw [h3]; ring
+
+/-- non-vacuity: offset 30°, 5 points: angles `330, 15, 60, 105, 150` -/
+example : rotatedDegrees 30 5 = [330, 15, 60, 105, 150] ∧ rotatedDegrees (-10) 1 = [10] := by decide +kernel
+
+/-- **C18.b** (failures): different `dt` or different numbers of points fail the assertions; without `parameter` and
+`func` the loop raises `ValueError` (as soon as there is one angle). -/
+theorem rotated_errors {α β : Type} [Add α] [Mul α] (cosd sind : ℚ → α) (m : Option (List α → β))
+    (dtNs dtWe : ℚ) (ns we : List α) (off : ℚ) (points : ℕ) :
+    (dtNs ≠ dtWe → computeRotated cosd sind m dtNs dtWe ns we off points = .error .AssertionError) ∧
+    (dtNs = dtWe → ns.length ≠ we.length →
+      computeRotated cosd sind m dtNs dtWe ns we off points = .error .AssertionError) ∧
+    (dtNs = dtWe → ns.length = we.length → 0 < points →
+      computeRotated cosd sind (none : Option (List α → β)) dtNs dtWe ns we off points = .error .ValueError) := by
+  refine ⟨fun h => by simp [computeRotated, h], fun h1 h2 => by simp [computeRotated, h1, h2],
+    fun h1 h2 h3 => ?_⟩
+  have : (rotatedDegrees off points).isEmpty = false := by
+    rw [List.isEmpty_eq_false_iff]; intro h0
+    have := congrArg List.length h0
+    simp [rotatedDegrees] at this; omega
+  simp [computeRotated, h1, h2, this]
+
+example : computeRotated (α := ℚ) (β := ℚ) (fun _ => 1) (fun _ => 0) none (1/2) (1/2) [1] [2] 0 3
+    = .error .ValueError := by decide +kernel
 
 /-! ## C18.e — `get_section_average` / `time_indices` -/
 
@@ -208,16 +306,16 @@ example : ∃ out, sameStart [[1, 2, 3], [4, 5, 6]] (1/2) 0 0 1 = .ok out :=
 
 /-! ## C18.d — `Cluster.time_match` -/
 
-/-- **C18.d** (lag search, general form). Master `bm` and slave `om` of equal length `n ≥ steps`; `residual bm om W l` is
+/-- **C18.d** (lag search, general form). Master `bm` and slave `om` of equal length `n ≥ steps`; `lagResidual bm om W l` is
 the sum of squared differences over the compared window (`W = n − steps` samples) for the candidate lag `l`
-(`l ≥ 0`: `Σ_k (om[k+l] − bm[k])²`, `l < 0`: `Σ_k (bm[k+|l|] − om[k])²`).  If the candidate `L`, `|L| < steps`, has a residual
+(`l ≥ 0`: `Σ_k (om[k+l] − bm[k])²`, `l < 0`: `Σ_k (bm[k+|l|] − om[k])²`).  If the candidate `L`, `|L| < steps`, has a lagResidual
 strictly below that of every other candidate lag, the search returns `L`.
 (Ties: the code keeps the earliest candidate in its scan order `0, +0, +1, …, +(steps−1), −0, −1, …`; with a unique
 strict minimum the order is immaterial.) -/
 theorem lag_search_spec (bm om : List ℚ) (n steps : ℕ) (L : ℤ) (hbm : bm.length = n) (hom : om.length = n)
     (hS : steps ≤ n) (hL : -(steps : ℤ) < L ∧ L < steps)
     (hmin : ∀ l : ℤ, -(steps : ℤ) < l → l < steps → l ≠ L →
-      residual bm om (n - steps) L < residual bm om (n - steps) l) :
+      lagResidual bm om (n - steps) L < lagResidual bm om (n - steps) l) :
     lagSearch bm om steps = .ok L :=
   lagSearch_unique_min bm om n steps L hbm hom hS hL hmin
 
@@ -229,26 +327,26 @@ example : lagSearch [0, 1, 4, 2, 0, 0, 0] [0, 0, 0, 1, 4, 2, 0] 3 = .ok 2 := by
   have h2' : l < 3 := by simpa using h2
   interval_cases l <;> first
     | exact absurd rfl h3
-    | (simp [residual, lagSum, leadSum, Finset.sum_range_succ]; try norm_num)
+    | (simp [lagResidual, lagSum, leadSum, Finset.sum_range_succ]; try norm_num)
 
 example : lagSearch [0, 1, 4, 2, 0, 0, 0] [0, 0, 0, 1, 4, 2, 0] 3 = .ok 2 ∧
     lagSearch [0, 0, 0, 1, 4, 2, 0] [0, 1, 4, 2, 0, 0, 0] 3 = .ok (-2) := by decide +kernel
 
 /-- **C18.d** (`time_match_spec`, one master/slave pair). If the slave equals the master delayed (`L ≥ 0`:
 `om[k+L] = bm[k]`) or advanced (`L < 0`: `bm[k+|L|] = om[k]`) by `L` samples on the compared window `k < n − steps`,
-`|L| < steps`, and every other candidate lag has a non-zero residual, then the returned lag is `L`, the new slave
+`|L| < steps`, and every other candidate lag has a non-zero lagResidual, then the returned lag is `L`, the new slave
 record has the same length, and on the compared window it coincides with the master. -/
 theorem time_match_pair_spec (bm om : List ℚ) (n steps : ℕ) (L : ℤ) (hbm : bm.length = n) (hom : om.length = n)
     (hS : steps ≤ n) (hL : -(steps : ℤ) < L ∧ L < steps)
     (hmatch : (0 ≤ L → ∀ k, k < n - steps → om.getD (k + L.toNat) 0 = bm.getD k 0) ∧
               (L < 0 → ∀ k, k < n - steps → bm.getD (k + L.natAbs) 0 = om.getD k 0))
-    (huniq : ∀ l : ℤ, -(steps : ℤ) < l → l < steps → l ≠ L → 0 < residual bm om (n - steps) l) :
+    (huniq : ∀ l : ℤ, -(steps : ℤ) < l → l < steps → l ≠ L → 0 < lagResidual bm om (n - steps) l) :
     lagSearch bm om steps = .ok L ∧
     ∃ new, shiftSlave om om L = .ok new ∧ new.length = n ∧
       (0 ≤ L → ∀ k, k < n - steps → new.getD k 0 = bm.getD k 0) ∧
       (L < 0 → ∀ k, k < n - steps → new.getD (k + L.natAbs) 0 = bm.getD (k + L.natAbs) 0) := by
-  have hres : residual bm om (n - steps) L = 0 := by
-    unfold residual
+  have hres : lagResidual bm om (n - steps) L = 0 := by
+    unfold lagResidual
     by_cases h0 : 0 ≤ L
     · simp only [h0, if_true, lagSum]
       apply Finset.sum_eq_zero
@@ -288,13 +386,13 @@ example : lagSearch [0, 0, 1, 4, 2, 0] [0, 1, 4, 2, 0, 0] 2 = .ok (-1) :=
       have h2' : l < 2 := by simpa using h2
       interval_cases l <;> first
         | exact absurd rfl h3
-        | (simp [residual, lagSum, leadSum, Finset.sum_range_succ]; try norm_num))).1
+        | (simp [lagResidual, lagSum, leadSum, Finset.sum_range_succ]; try norm_num))).1
 
 example : shiftSlave [0, 0, 0, 1, 4, 2, 0] [0, 0, 0, 1, 4, 2, 0] 2 = .ok [0, 1, 4, 2, 0, 0, 0] ∧
     shiftSlave [5, 1, 4, 2, 0, 0, 0] [5, 1, 4, 2, 0, 0, 0] (-2) = .ok [5, 5, 5, 1, 4, 2, 0] := by decide +kernel
 
 /-- **C18.d** (`time_match_spec`, whole cluster; all records of length `n ≥ steps`). If `time_match` returns `(lag, out)`:
-the number of records, every record length and the master are unchanged; every slave `k` whose residual has a unique
+the number of records, every record length and the master are unchanged; every slave `k` whose lagResidual has a unique
 strict minimum at `L` among the candidate lags is replaced by `shiftSlave s s L` (described by `time_match_pair_spec`);
 and the returned `lag` is that of the **last** slave in cluster order. -/
 theorem time_match_spec (signals : List (List ℚ)) (master steps n : ℕ) (lag : ℤ) (out : List (List ℚ))
@@ -304,7 +402,7 @@ theorem time_match_spec (signals : List (List ℚ)) (master steps n : ℕ) (lag 
     ∃ m, signals[master]? = some m ∧ out[master]? = some m ∧
       ∀ k s (L : ℤ), k ≠ master → signals[k]? = some s → -(steps : ℤ) < L → L < steps →
         (∀ l : ℤ, -(steps : ℤ) < l → l < steps → l ≠ L →
-          residual m s (n - steps) L < residual m s (n - steps) l) →
+          lagResidual m s (n - steps) L < lagResidual m s (n - steps) l) →
         ∃ o, out[k]? = some o ∧ shiftSlave s s L = .ok o ∧
           ((∀ k', k < k' → k' < signals.length → k' = master) → lag = L) := by
   unfold timeMatch at h
